@@ -11,7 +11,9 @@ RULE = ("seeded single-threaded scripts (allocate/free/deallocate/realloc/get_si
         "matched against the path shapes of the generated skeleton, plus TSan stress scenarios with 2-8 threads (mix with "
         "cross-thread frees, all threads finding a class empty behind a barrier, frees into the slab another thread allocates "
         "from, concurrent large blocks); non-trivial = distinct (API function, observed lock/callback word) pairs plus distinct "
-        "(scenario kind, thread count, policy) triples that completed")
+        "(scenario kind, thread count, policy) triples that completed; replay leg: 'rlog' scenarios (the mix workload with per-thread "
+        "call logs and a global order of call entries and critical sections) replayed on the extracted concrete concurrent model, "
+        "every returned address compared, the theorems' per-step hypotheses checked on every replayed step")
 TRUSTED = ["translator/gen_slabconc.py (clang 14 JSON AST -> coq/Gen/SlabSkeleton.v; pointer-provenance Fresh/Alias/Store "
            "events are a syntactic approximation)",
            "field -> lock table field_class in coq/SlabConc/Skeleton.v",
@@ -19,12 +21,21 @@ TRUSTED = ["translator/gen_slabconc.py (clang 14 JSON AST -> coq/Gen/SlabSkeleto
            "harness comp/slabconc/harness.cpp (instrumented Mutex = std::mutex + per-thread counter; g++ -fsanitize=thread and "
            "-fsanitize=address,undefined; -fno-access-control)",
            "ThreadSanitizer's happens-before detector; the C++ memory model for code inside critical sections",
-           "rbtree operations on partial_tree are atomic with respect to the bucket lock (their internals belong to C06)"]
+           "rbtree operations on partial_tree are atomic with respect to the bucket lock (their internals belong to C06)",
+           "replay of multi-threaded logs: comp/slabconc/cdriver.ml (schedule built from the logged global order; thr/lk "
+           "functions re-tabulated into arrays after every step), the relaxed atomic sequence counter of the harness "
+           "(modification order consistent with happens-before)",
+           "coq/SlabConc/ConcSlabModel.v: a locked body is one atomic step (granularity justified by C05_conc_slab_reduction + "
+           "C05_mutual_exclusion_of_bodies; read/write-split bodies only at the abstract level of AllocModel.v)"]
 ASSUMPTIONS = ["the Mutex template argument is a correct mutex (lock() blocks while held, unlock() releases; modelled as such)",
                "API preconditions of C01 (free/realloc only of live blocks); FRG_ASSERT failures are documented stops",
                "Policy::map returns memory disjoint from everything mapped and not unmapped (fresh blocks in the abstract allocator)",
                "FRG_SLAB_TRACK_REGIONS undefined and enable_checking == false (as in /repo): _verify_* is compiled out",
-               "numUsedPages() is not part of the concurrent API mix (it reads _usedPages without _tree_mutex)"]
+               "numUsedPages() is not part of the concurrent API mix (it reads _usedPages without _tree_mutex)",
+               "concrete concurrent model: a pointer passed to free/deallocate/realloc is live and not the argument or pending result of "
+               "another in-flight call; non-zero map() answers are disjoint from mapped frames and from the private regions of "
+               "in-flight allocations (checked on every replayed step of the rlog scenarios)",
+               "C02's footprint bound is not claimed under concurrency (two threads finding a class empty both map a slab)"]
 
 _regen_done = {}
 
@@ -56,6 +67,53 @@ def build_model():
     rc, o, e = vlib.sh(["ocamlfind", "ocamlopt", "-w", "-a", "slabconc_model.mli", "slabconc_model.ml", "slabconc_main.ml",
                         "-o", out], cwd=bdir, timeout=600)
     return rc == 0, out, o + e
+
+
+def build_cmodel():
+    """extracted concrete concurrent model (coq/SlabConc/ConcSlabModel.v; no Coq strings in it) + comp/slabconc/cdriver.ml
+    -> build/bin/slabconc_c.  Requires build_model() to have produced build/extract/slabconc_cmodel.ml."""
+    if not os.path.exists(os.path.join(vlib.BUILD, "extract", "slabconc_cmodel.ml")):
+        return False, None, "build/extract/slabconc_cmodel.ml missing (SlabConcExtract.v failed)"
+    return vlib.ocaml_build("slabconc_c", ["slabconc_cmodel"], os.path.join(HERE, "cdriver.ml"))
+
+
+def rlog_expected(lines):
+    """per rlog scenario: {(tid, k): result observed by the thread on the real pool} from the harness's `rl c` lines"""
+    scen, cur, cnt = [], None, None
+    for l in lines:
+        w = l.split()
+        if len(w) < 2 or w[0] != "rl":
+            continue
+        if w[1] == "cfg":
+            cur, cnt = {}, {}
+            scen.append(cur)
+        elif w[1] == "c" and cur is not None:
+            t = int(w[2]); k = cnt.get(t, 0); cnt[t] = k + 1
+            cur[(t, k)] = w[5] if w[3] == "a" else ("u" if w[3] in "fd" else w[6])
+    return scen
+
+
+def rlog_model(lines):
+    """per replayed scenario: ({(tid, k): result computed by the model}, info) from cdriver's output"""
+    scen, cur = [], None
+    for l in lines:
+        w = l.split()
+        if not w:
+            continue
+        if w[0] == "K":
+            cur = ({}, {"cfg_ok": w[2] == "true", "hyp": None, "div": None, "steps": 0})
+            scen.append(cur)
+        elif cur is None:
+            continue
+        elif w[0] == "M":
+            cur[0][(int(w[1]), int(w[2]))] = " ".join(w[3:])
+        elif w[0] == "H":
+            cur[1]["hyp"] = (int(w[1]), " ".join(w[2:]))
+        elif w[0] == "D":
+            cur[1]["div"] = " ".join(w[1:])
+        elif w[0] == "S":
+            cur[1]["steps"] = int(w[1])
+    return scen
 
 
 def crash_message(text):
@@ -105,6 +163,7 @@ def run(c):
 
     def b_model():
         res["m"] = build_model()
+        res["c"] = build_cmodel() if res["m"][0] else (False, None, "skeleton extraction failed")
 
     def b_asan():
         res["a"] = vlib.cxx_build("slabconc_asan", os.path.join(HERE, "harness.cpp"), san="asan", extra=["-pthread"])
@@ -117,7 +176,8 @@ def run(c):
     okm, drv, mlog = res["m"]
     oka, hasan, alog = res["a"]
     okt, htsan, tlog = res["t"]
-    shapes, disciplined = {}, False
+    okc, cdrv, clog = res["c"]
+    shapes, disciplined, mshapes = {}, False, []
     if okm:
         rc, out, err = vlib.sh([drv], timeout=300)
         for line in out.split("\n"):
@@ -128,9 +188,16 @@ def run(c):
                 disciplined = w[1] == "true"
             elif w[0] == "S":
                 shapes.setdefault(w[1], set()).add(" ".join(w[2:]))
+            elif w[0] == "P":
+                mshapes.append((w[1], " ".join(w[2:])))
         c.gen_obligation("skeleton_disciplined (check_skeleton Gen.SlabSkeleton.actual = true, extracted checker)", disciplined)
         c.gen_obligation("skeleton has path shapes for every API function",
                          all(shapes.get(f) for f in ("allocate", "realloc", "free", "deallocate", "get_size")))
+        badp = [(f, w) for f, w in mshapes if w not in shapes.get(f, ())]
+        c.gen_obligation("concrete concurrent model: the lock shape of every call path (realloc included) is a path shape of the "
+                         "generated skeleton", bool(mshapes) and not badp and any(f == "realloc" for f, _ in mshapes), str(badp[:3]))
+        if not okc:
+            c.broken.append("slabconc concrete-model replay driver build failed: " + str(clog)[-800:])
     else:
         c.broken.append("slabconc skeleton extraction/driver build failed: " + str(mlog)[-800:])
     if not (oka and okt):
@@ -210,6 +277,42 @@ def run(c):
                 if w[0] == "mt" and w[-1] == "done":
                     c.count("slabconc_mt_scenario_" + w[1])
                     c.nontrivial.add((w[1], hdr[2], hdr[1]))
+    # ---- replay of the logged interleavings on the extracted concrete concurrent model
+    rl_cases = [(cid, [l for l in r_mt[cid]["lines"] if l.startswith("rl ")]) for cid, _ in mt
+                if r_mt.get(cid) and any(l.startswith("rl cfg") for l in r_mt[cid]["lines"])]
+    if rl_cases and okc:
+        r_rl = vlib.run_cases(cdrv, rl_cases, shards=min(4, len(rl_cases)), timeout=1500)
+        src = dict(mt)
+        for cid, rll in rl_cases:
+            lines = src[cid]
+            exp = rlog_expected(rll)
+            rr = r_rl.get(cid)
+            if rr is None or rr.get("crash"):
+                c.mismatch(cid, lines, "replay driver produced no output: " + str((rr or {}).get("crash"))[-300:])
+                continue
+            got = rlog_model(rr["lines"])
+            complete = sum(1 for l in rll if l.startswith("rl end"))
+            if len(got) != complete:
+                c.mismatch(cid, lines, "replay: %d logged scenarios, %d replayed" % (complete, len(got)))
+                continue
+            for k, (e, (g, info)) in enumerate(zip(exp, got)):
+                c.count("slabconc_rlog_scenarios"); c.count("slabconc_rlog_calls", len(e)); c.count("slabconc_rlog_model_steps", info["steps"])
+                if not info["cfg_ok"]:
+                    c.mismatch(cid, lines, "replay: cfg_ok is false for the harness configuration")
+                if info["div"]:
+                    c.mismatch(cid, lines, "replay scenario %d: the model cannot follow the logged order: %s" % (k, info["div"]))
+                bad = [(key, e[key], g.get(key)) for key in sorted(e) if e[key] != g.get(key)]
+                if bad:
+                    (t, i), ev, gv = bad[0]
+                    c.mismatch(cid, lines, "replay scenario %d: thread %d call %d returned %s on the real pool, the concurrent model "
+                                           "computes %s (%d of %d calls differ)" % (k, t, i, ev, gv, len(bad), len(e)))
+                elif not info["div"]:
+                    c.nontrivial.add(("rlog", lines[0].split()[2], lines[0].split()[1]))
+                if info["hyp"] and info["hyp"][0]:
+                    c.mismatch(cid, lines, "replay scenario %d: a hypothesis of the theorems (api_ok / policy_ok per step) does not hold "
+                                           "for the real run at %s (%d steps)" % (k, info["hyp"][1], info["hyp"][0]))
+    elif any(l.startswith("rlog") for _, ls in mt for l in ls) and okc and not c.replay:
+        c.broken.append("rlog scenarios produced no replay log")
     c.extra["slabconc_skeleton_shapes_observed"] = {
         f: "%d of %d" % (len(set(k[1] for k in c.nontrivial if len(k) == 2 and k[0] == f)), len(shapes.get(f, ())))
         for f in ("allocate", "realloc", "free", "deallocate", "get_size")}
